@@ -8,7 +8,8 @@ import "encoding/binary"
 //   G3  every position p x every value of B8 u {orig-1, orig+1} (value != orig)
 //   G4  every annotated 8-bit length/count field x all 256 values
 //   G5  every annotated 16-bit length field x B16 u {orig-1, orig+1, len(seed)-off..., }
-//   G6  all byte strings of length <= strN, raw and embedded by each wrapper
+//   G6  all byte strings of length <= 2, raw and embedded by each wrapper (quick: framed 2-byte strings only
+//       boundary x boundary); thorough: length 3 as well for pure decoders
 //   G7  seed padded to 2048 bytes with 0x00 / 0xff / 'A' (raw and with outer lengths fixed),
 //       and seed with its repeatable option multiplied up to 2048 bytes (raw and fixed)
 //   thorough only:
@@ -267,7 +268,7 @@ func buildJobs(t *target, thorough bool) []job {
 			})
 		}
 	}
-	if t.strN >= 3 {
+	if t.strN >= 3 && thorough {
 		for a := 0; a < 256; a++ {
 			a := a
 			add("strings=3", func(emit func([]byte)) {
@@ -291,6 +292,19 @@ func buildJobs(t *target, thorough bool) []job {
 				emit(w([]byte{byte(a)}))
 			}
 		})
+		if !thorough {
+			// quick: 2-byte payloads restricted to boundary x boundary
+			add("framed-strings=2(boundary)", func(emit func([]byte)) {
+				buf := make([]byte, 2)
+				for _, a := range b8 {
+					for _, b := range b8 {
+						buf[0], buf[1] = a, b
+						emit(w(buf))
+					}
+				}
+			})
+			continue
+		}
 		for a0 := 0; a0 < 256; a0 += 16 {
 			a0 := a0
 			add("framed-strings=2", func(emit func([]byte)) {
